@@ -173,6 +173,10 @@ def shard(jobs, tier):
     out = []
     for j in jobs:
         n = j.get('n', 0)
+        if (j.get('profile') or '').startswith('all-') and n:
+            # an exhaustive enumeration: shard k of K takes every K-th element
+            out += [dict(j, profile=f"{j['profile']}:{k}/14", lines=j.get('lines') if k == 0 else []) for k in range(14)]
+            continue
         parts = 1 if tier == 'quick' or n < 400 else min(12, n // 200)
         if parts <= 1:
             out.append(j)
@@ -220,7 +224,7 @@ def explore(prop, tier, seed, have_driver, extra_lines=None, scale=1):
     cases = uniq
     # the model's answers
     if have_driver and cases:
-        model = run_driver([c.get('model_line') or c['line'] for c in cases], 'Driver')
+        model = run_driver_parallel([c.get('model_line') or c['line'] for c in cases], 'Driver')
         if model is None:
             errors.append('the model driver failed to run')
             model = [None] * len(cases)
@@ -231,7 +235,7 @@ def explore(prop, tier, seed, have_driver, extra_lines=None, scale=1):
     # cross-check of the harness's reference implementations against the Lean specification
     spec_lines = [(c, s) for c in cases for s in c.get('spec', [])]
     if spec_lines:
-        outs = run_driver([s['line'] for _, s in spec_lines], 'SpecDriver')
+        outs = run_driver_parallel([s['line'] for _, s in spec_lines], 'SpecDriver')
         if outs is None:
             print('infrastructure: the specification driver failed to run', file=sys.stderr)
             sys.exit(2)
@@ -250,6 +254,21 @@ def explore(prop, tier, seed, have_driver, extra_lines=None, scale=1):
                       f'{s["expect"][:200]} vs {o[:200]}', file=sys.stderr)
                 sys.exit(2)
     return cases, errors, len(spec_lines)
+
+
+def run_driver_parallel(lines, which):
+    """the driver is one process per call; bulk runs are cut into pieces that run side by side"""
+    size = sum(len(l) for l in lines)
+    if len(lines) < 4000 and size < 20_000_000:
+        return run_driver(lines, which)
+    k = 12
+    step = -(-len(lines) // k)
+    parts = [lines[i:i + step] for i in range(0, len(lines), step)]
+    with concurrent.futures.ThreadPoolExecutor(max_workers=k) as ex:
+        outs = list(ex.map(lambda p: run_driver(p, which), parts))
+    if any(o is None for o in outs):
+        return None
+    return [x for o in outs for x in o]
 
 
 def project(name, out):
